@@ -52,6 +52,9 @@ def check(repo, tier):
     run.rule('D5', 'constructors zeros/ones/eye/unit/rand/uniform: class invariant with the requested dims/ranks, boundary ranks 1; eye stores the identity on the (row, column) axes')
     run.rule('D6', 'residual_error: operator column contracted with the lhs mode, stacked blocks conformable; operator product: column of the left factor with row of the right factor, site by site')
     run.rule('D7', 'every returned tensor train satisfies the class invariant (cores[k].shape == (ranks[k], row_dims[k], col_dims[k], ranks[k+1]))')
+    run.rule('D8', 'norm: p = 2 is np.linalg.norm of ALL entries of core 0 of a tensor train whose cores 1..d-1 are right-orthonormal factors and which was obtained from copies of the '
+             'receiver\'s cores (row and column index merged for operators) by value-preserving sweep steps; p = 1 is a maximum over the matricisation of the train with the row index '
+             'of every core summed; the receiver is not modified')
     run.trusted = ['NumPy transfer functions (ttsa/fakelib.py)', 'definition of the TT format']
     orders = (1, 2, 3, 4) if tier == 'thorough' else (1, 2, 3)
     run.bounds = f'orders {orders}; operators and vectors; per-core real/complex patterns; symbolic ranks and mode sizes, plus size-1 modes'
@@ -464,6 +467,7 @@ def check(repo, tier):
                 run.oblige('D6', (entry, scen, 'structure'), not bad)
                 if bad:
                     run.add(F(entry, 'D6 structure of the operator product', f'{scen}: ' + '; '.join(bad[:3])))
+    norm_rule(run, repo, orders, F)
     run.analysed = {'typed_contractions': n_contr}
     run.floor('obligations decided', run.obligations, 150)
     controls(run, repo)
@@ -514,3 +518,90 @@ def controls(run, repo):
     run.control('negative control: additive second store is accepted (controls/l2 blocks_additive)', not probs)
     res = l2.explore(crepo, body('complex_into_real'), typed=False)
     run.control('D2: complex block stored into a real array (controls/l2 complex_into_real)', any(sc.events('complex-loss') for _, sc, _, _ in res))
+
+
+def norm_rule(run, repo, orders, F):
+    """D8: structure of TT.norm (the value itself is numerical): what is measured is the receiver, in a form in which the measured core carries the whole norm"""
+    from .p_c03 import working_object
+    entry = f'{TTM}.TT.norm'
+    for d, kind, p in itertools.product(orders, ('op', 'vec'), (2, 1)):
+        scen = f'norm(order={d}, {kind}, p={p})'
+
+        def body(sc):
+            a = sc.tt('a', d, kind, square=False, dtype='complex' if p == 2 else 'real')
+            sc.inputs = (a,)
+            sc.old = list(a._attrs['cores'])
+            return sc.method(a, 'norm', p=p)
+        for ch, sc, res, exc in l2.explore(repo, body, typed=True):
+            l2rules.typing_obligations(run, 'C01', 'D8', repo, sc, scen, {TTM})
+            if exc is not None:
+                run.oblige('D8', (entry, scen), False)
+                l2rules.raised_finding(run, 'C01', 'D8', repo, entry, scen, exc)
+                continue
+            a = sc.inputs[0]
+            bad, unknown = [], []
+            if any(c is not o for c, o in zip(a._attrs['cores'], sc.old)) or len(a._attrs['cores']) != d:
+                bad.append('the receiver was modified')
+            if not (isinstance(res, Arr) and res.ndim == 0):
+                bad.append(f'the result is not a scalar: {res!r}')
+            elif p == 2:
+                evs = [e for e in sc.events('norm') if id(e['array']) in A.ancestors([res]) or e['array'] is res]
+                norms = sc.events('norm')
+                if len(norms) != 1:
+                    unknown.append(f'{len(norms)} calls of np.linalg.norm')
+                else:
+                    x = norms[0]['array']
+                    root = x
+                    while isinstance(root, Arr) and id(root) not in sc.ctx.core_tokens and (root.tags.get('is_reshape') or root.origin == 'getitem') and root.parents:
+                        root = root.parents[0]
+                    tok = sc.ctx.core_tokens.get(id(root))
+                    if tok is None or tok[1] != 0:
+                        (bad if tok is not None else unknown).append('the measured array is not (a reshape of) the first core of a tensor train' if tok is None else f'core {tok[1]} is measured instead of core 0')
+                    else:
+                        inst = tok[0]
+                        # all entries of the core are measured: the norm argument has as many entries as the core
+                        from .shape import sz_prod
+                        if not sz_eq(sz_prod(x.shape), sz_prod(root.shape)):
+                            bad.append(f'only {x.shape} of the {root.shape} entries of core 0 are measured')
+                        cs = inst._attrs['cores']
+                        if len(cs) != d:
+                            bad.append(f'the measured train has {len(cs)} cores')
+                        iso = {k: l2rules.core_iso(cs[k], 'RO') for k in range(1, len(cs))}
+                        notro = [k for k, v in iso.items() if v is False]
+                        if notro:
+                            bad.append(f'cores {notro} of the measured train are not right-orthonormal factors, so core 0 does not carry the norm')
+                        elif any(v is None for v in iso.values()):
+                            unknown.append('right-orthonormality of the measured train')
+                        t_obj, init = working_object(sc)
+                        if d > 1:
+                            if t_obj is not inst:
+                                unknown.append('the sweep does not work on the measured train')
+                            else:
+                                vb, vu, _n = l2rules.value_preservation(sc, inst, init)
+                                bad += vb
+                                unknown += vu
+                        else:
+                            init = list(cs)
+                        # the train that was swept consists of (reshaped) copies of the receiver's cores
+                        for k, c in enumerate(init or []):
+                            r0 = c
+                            n_ = 0
+                            while isinstance(r0, Arr) and r0.parents and n_ < 8 and (r0.tags.get('is_reshape') or r0.origin in ('copy', 'astype')):
+                                r0 = r0.parents[0]
+                                n_ += 1
+                            if k < len(sc.old) and r0 is not sc.old[k]:
+                                unknown.append(f'core {k} of the measured train is not recognisably a copy of core {k} of the receiver')
+            else:
+                anc = A.ancestors([res])
+                if res.origin != 'amax' and not any(v.origin == 'amax' for v in anc.values()):
+                    unknown.append('no maximum is taken')
+                missing = [k for k, c in enumerate(sc.old) if id(c) not in anc]
+                if missing:
+                    bad.append(f'cores {missing} of the receiver do not enter the 1-norm')
+                if any(v.origin in ('norm',) for v in anc.values()):
+                    bad.append('a Euclidean norm is computed for p = 1')
+            if unknown and not bad:
+                raise AnalysisError(f'{scen}: undecided: ' + '; '.join(unknown[:2]))
+            run.oblige('D8', (entry, scen), not bad)
+            if bad:
+                run.add(F(entry, 'D8 norm', f'{scen}: ' + '; '.join(sorted(set(bad))[:3])))
